@@ -117,7 +117,7 @@ def judge_block(step: Dict, blk: Dict) -> List[str]:
 
 
 def run_mc_history(info, pc, prog_dir: str, pre: Optional[str], op: str, actor: Optional[str],
-                   clients: List[str], claim_reply: Optional[int] = None) -> Tuple[Dict[str, List[str]], str]:
+                   clients: List[str], claim_reply: Optional[int] = None, asan: bool = False) -> Tuple[Dict[str, List[str]], str]:
     """Run [pre claims (granted)] ; op ; every component out-event.  -> {out-event: [sides delivered]}"""
     origin = info['case'].origin
     mc = pc.multiclient
@@ -158,7 +158,7 @@ def run_mc_history(info, pc, prog_dir: str, pre: Optional[str], op: str, actor: 
     outs = [e for e in itf.events if e.direction == 'out']
     for ev in outs:
         sc.invoke(f'g_enc(shell).{prt.name}.out.{ev.name}', ev, f'out.{ev.name}', itf_t)
-    rc, out = D.compile_and_run(prog_dir, info, sc.source(), 'drv_mc')
+    rc, out = D.compile_and_run(prog_dir, info, sc.source(), 'drv_mc', asan=asan)
     if rc == 2:
         return {'__error__': [out[:400]]}, out
     blocks = D.parse_trace(out)[1:]
